@@ -135,6 +135,7 @@ type ioOp struct {
 	feDown   bool
 	// sampled when the op's goroutine acquired the controller lock
 	acquired bool
+	acqSeq   int
 	list     []types.Replica
 	ro       bool
 	rwCount  int
@@ -185,6 +186,7 @@ type clRun struct {
 	woSince   map[string]int           // address -> index of first io op issued after it appeared as WO
 
 	faultsActive bool
+	acqCounter   int
 	shape        []string
 	mutations    int
 	compares     int
@@ -524,6 +526,8 @@ func (cr *clRun) onAcquire(lock interface{}, g *simrt.G, write bool) {
 	}
 	if !o.acquired {
 		o.acquired = true
+		cr.acqCounter++
+		o.acqSeq = cr.acqCounter
 		o.list = append([]types.Replica(nil), cr.c.ctrl.ListReplicas()...)
 		o.ro = cr.c.ctrl.ReadOnly
 		o.rwCount = cr.c.ctrl.RWReplicaCount
@@ -631,12 +635,17 @@ func (cr *clRun) onQuiescent() {
 	if c.ctrl == nil {
 		return
 	}
-	// judge completed I/O
+	// judge completed I/O in linearisation order (= order of controller-lock acquisition)
+	var ready []*ioOp
 	for _, o := range cr.ios {
 		if o.done && !o.feDown && o.kind != "" {
-			cr.judgeIO(o)
-			o.kind = "" // judged
+			ready = append(ready, o)
 		}
+	}
+	sort.SliceStable(ready, func(i, j int) bool { return ready[i].acqSeq < ready[j].acqSeq })
+	for _, o := range ready {
+		cr.judgeIO(o)
+		o.kind = "" // judged
 	}
 	if !cr.lockFree() {
 		return
@@ -804,8 +813,16 @@ func (cr *clRun) judgeIO(o *ioOp) {
 	if o.kind == "r" && o.n > 0 {
 		if o.ok() {
 			cr.compares++
-			if ok, why := cr.m.check(o.buf, o.off, false); !ok {
-				cr.viol("C04", "read-returned-wrong-data", "read %d off=%d len=%d: %s", o.idx, o.off, o.n, why)
+			if ok, why, bad := cr.m.check2(o.buf, o.off, false); !ok {
+				clause := "read-returned-wrong-data"
+				for _, rn := range cr.c.reps {
+					if w := cr.unalignedWriteWhileWO(rn.addr, bad); w != nil {
+						clause += "/unaligned-write-during-rebuild"
+						why += fmt.Sprintf(" [block %d was partially written by op %d (off=%d len=%d) while %s was WO]", bad/8, w.idx, w.off, w.n, rn.name)
+						break
+					}
+				}
+				cr.viol("C04", clause, "read %d off=%d len=%d: %s", o.idx, o.off, o.n, why)
 				return
 			}
 			if rw == 0 {
@@ -1049,19 +1066,6 @@ func (clustersim) Generate(rng *Rand, prop, tier string) *Script {
 		if b+n > nb {
 			n = nb - b
 		}
-		if k == "w" || k == "unmap" {
-			for t := 0; t < 8 && (busy[b] || (n == 2 && busy[b+1])); t++ {
-				b = int64(rng.Intn(int(nb)))
-				n = 1
-			}
-			if busy[b] {
-				return
-			}
-			busy[b] = true
-			if n == 2 {
-				busy[b+1] = true
-			}
-		}
 		op.A, op.B = b*8, n*8
 		if s.Cfg["unaligned"] != 0 && rng.Bool(30) { // unaligned
 			op.A += int64(rng.Intn(8))
@@ -1074,6 +1078,22 @@ func (clustersim) Generate(rng *Rand, prop, tier string) *Script {
 			op.A = secs - int64(rng.Intn(4))
 			op.B = int64(rng.Range(4, 12))
 		}
+		if k == "unmap" {
+			op.B = 8
+		}
+		if k == "w" || k == "unmap" {
+			// concurrent mutating I/O never overlaps (per 4 KiB block), as with a real initiator
+			for blkNo := op.A / 8; blkNo <= (op.A+op.B-1)/8; blkNo++ {
+				if busy[blkNo] {
+					return
+				}
+			}
+			for blkNo := op.A / 8; blkNo <= (op.A+op.B-1)/8; blkNo++ {
+				busy[blkNo] = true
+			}
+		}
+		add(op)
+		return
 		if k == "unmap" {
 			op.B = 8
 		}
